@@ -72,11 +72,12 @@ type Run struct {
 	importing  string
 	replayKey  string
 	knownMatch []string
+	dedupe     map[string]bool
 }
 
 func NewRun(prop, tier string) *Run {
 	return &Run{Prop: prop, Tier: tier, Level: "other", Start: time.Now(), floors: map[string]int{}, counts: map[string]int{},
-		Funcs: map[string]bool{}, Extra: map[string]interface{}{}}
+		Funcs: map[string]bool{}, Extra: map[string]interface{}{}, dedupe: map[string]bool{}}
 }
 
 // Floor declares the minimum number of instances of rule that must be found;
@@ -103,6 +104,11 @@ func (r *Run) Check(rule, key, pos string, ok bool, detail string) bool {
 			detail = ""
 		}
 	}
+	dk := fmt.Sprintf("%s|%s|%s|%v", rule, key, pos, ok)
+	if r.dedupe[dk] {
+		return ok
+	}
+	r.dedupe[dk] = true
 	r.Obls = append(r.Obls, Obligation{Rule: rule, Key: key, Pos: pos, OK: ok, Detail: detail, Shared: r.importing})
 	if !ok {
 		r.Viols = append(r.Viols, Violation{Property: r.Prop, Kind: "rule-violation", Rule: rule, Key: key, Pos: pos, Detail: detail})
